@@ -40,6 +40,16 @@ func (c *monC03) track(m *Machine, s *Step) {
 			}
 		}
 		return
+	case "lock":
+		// the application locked the account and was told it worked: locked for LockDuration from now,
+		// whatever the stored deadline says (storage is where a broken Lock shows)
+		if ka := m.KB.acct(op.A % max(1, len(m.KB.Accts))); ka != nil && s.HasAPI && s.APIErr == nil && m.C.Cfg.Has("lock") {
+			if _, ok := s.Post.Users[ka.PID]; ok && op.S != "far" {
+				c.lockedUntil[ka.PID] = time.Now().UTC().Add(m.W.AB.Config.Modules.LockDuration - 2*time.Second)
+				m.flag("manual-lock")
+				return
+			}
+		}
 	case "unlock":
 		if ka := m.KB.acct(op.A % max(1, len(m.KB.Accts))); ka != nil {
 			c.lockedUntil[ka.PID] = s.Post.Users[ka.PID].Locked
